@@ -166,6 +166,28 @@ func runSegment(sc *Scenario) *Rec {
 			}
 			ret, retm := recv(d)
 			rec.Log("SegOp", "a", "deliver", "n", st.N, "seq", st.Seq, "ret", ret, "retm", retm, "table", table())
+		case "deliverAll":
+			// every datagram of message st.N, in order (huge messages): how many messages were handed up, at which datagram, exact bytes?
+			handed, at, exact, ret := 0, 0, 0, "ok"
+			for idx := 0; ; idx++ {
+				d, ok := dgs[[2]int{st.N, idx}]
+				if !ok {
+					break
+				}
+				r, rm := recv(d)
+				if r == "panic" {
+					ret = "panic"
+					break
+				}
+				if r != "none" {
+					handed++
+					at = idx + 1
+					if r == "msg" && rm == st.N {
+						exact = 1
+					}
+				}
+			}
+			rec.Log("SegOp", "a", "deliverAll", "n", st.N, "ret", ret, "handed", handed, "at", at, "exact", exact)
 		case "lose":
 			rec.Log("SegOp", "a", "lose", "n", st.N, "seq", st.Seq, "ret", "none", "retm", 0, "table", table())
 		case "tick":
